@@ -17,6 +17,8 @@ import (
 	"fmt"
 	"io"
 	"net"
+	"runtime"
+	"strings"
 	"sync"
 	"time"
 
@@ -447,6 +449,35 @@ func (e *clEnv) serverMsg(op Op) *client.Message {
 	panic(harnessErr("server message kind " + op.Str(0)))
 }
 
+// waitCallersParked returns when every goroutine started by startCall has passed sendMessage and sits in the
+// select that waits for the reply (or has finished).  The callers read the client's request time-out between those
+// two points; the harness changes that setting from op to op.
+func waitCallersParked() {
+	buf := make([]byte, 1<<20)
+	deadline := time.Now().Add(5 * time.Second)
+	for {
+		n := runtime.Stack(buf, true)
+		ok := true
+		for _, g := range strings.Split(string(buf[:n]), "\n\n") {
+			if !strings.Contains(g, ").startCall") {
+				continue
+			}
+			open, cl := strings.Index(g, "["), strings.Index(g, "]")
+			if open < 0 || cl < open {
+				continue
+			}
+			if !strings.HasPrefix(g[open+1:cl], "select") || strings.Contains(g, ").sendMessage(") {
+				ok = false
+				break
+			}
+		}
+		if ok || time.Now().After(deadline) {
+			return
+		}
+		time.Sleep(100 * time.Microsecond)
+	}
+}
+
 // startCall runs a public call in its own goroutine; the result is an observation
 // [status, detail...]: 0 ok, 4 time-out, 6 reject (code), 3 other error
 func (e *clEnv) startCall(kind, key int64) chan Obs {
@@ -634,6 +665,9 @@ func runClient(c *Case) ([]Obs, any) {
 					return Obs{-5}
 				}
 				e.c.VerifSetMessageTimeout(e.msgTimeout)
+				// the request time-out is one setting of the client, read by the caller after its message was
+				// sent: do not let the next op change it before this caller is waiting for its reply
+				waitCallersParked()
 				// when the message was on the wire (the caller not yet told) the request must already have been
 				// registered, otherwise a reply routed at that moment finds nobody (then: -6)
 				e.umu.Lock()
